@@ -550,6 +550,9 @@ func normBV(s string) string {
 }
 
 // dischargeAll runs all obligations of several functions on a worker pool.
+// noRetry: obligations recorded as known findings are not retried (they are expected to stay undischarged)
+var noRetry = map[string]bool{}
+
 func dischargeAll(results []*FuncResult, dir string, timeout float64, thorough bool, workers int) []*Verdict {
 	type job struct {
 		r *FuncResult
@@ -579,7 +582,7 @@ func dischargeAll(results []*FuncResult, dir string, timeout float64, thorough b
 	if os.Getenv("GOVC_NORETRY") == "" {
 		var retry []int
 		for i, v := range out {
-			if v != nil && v.Status == "unknown" {
+			if v != nil && v.Status == "unknown" && !noRetry[jobs[i].o.Name] {
 				retry = append(retry, i)
 			}
 		}
